@@ -363,6 +363,10 @@ func decodeStructValueSlice(field reflect.Value, fieldType reflect.StructField, 
 func decodeSlice(p *ParagraphReader, into reflect.Value) error {
 	flavor := into.Elem().Type().Elem()
 
+	/* the slice is what the input says, not what it held before plus
+	 * that (like the list members of a struct) */
+	into.Elem().Set(reflect.MakeSlice(into.Elem().Type(), 0, 0))
+
 	for {
 		targetValue := reflect.New(flavor)
 
